@@ -245,6 +245,11 @@ func zzC14Sketch(kind int, exact bool) {
 		}
 		zzvAssert("copy-content-equal", zzSameContent(cp, g, p))
 		zzvAssert("copy-inv", zzInvSketch(cp))
+		zzvAssert("copy-stores-share-no-memory", zzvAnd(zzvDisjoint(cp.positiveValueStore, s.positiveValueStore), zzvAnd(zzvDisjoint(cp.negativeValueStore, s.negativeValueStore),
+			zzvAnd(zzvDisjoint(cp.positiveValueStore, s.negativeValueStore), zzvDisjoint(cp.negativeValueStore, s.positiveValueStore)))))
+		if exact {
+			zzvAssert("copy-statistics-share-no-memory", zzvDisjoint(ce.summaryStatistics, e.summaryStatistics))
+		}
 		w := store.ZZWPos("c")
 		if zzvChoose("mutate", 2) == 0 {
 			if exact {
